@@ -7,7 +7,9 @@ from mc.engine import Viol
 PROP = "C18"
 DIR = None
 T = {"a.txt": b"content of a", "d": DIR, "d/b.txt": b"content of b", "e.dat": b"",
-     "man\u0303ana \u212b.mov": b"a name that is not in Unicode NFC form"}
+     "man\u0303ana \u212b.mov": b"a name that is not in Unicode NFC form",
+     # files with identical content (a copy; a second empty file): every path keeps its own record
+     "d/copy of a.txt": b"content of a", "z.dat": b""}
 ALT = {"a.txt": b"a ALTERED", "d/b.txt": b"b ALTERED"}
 
 
